@@ -19,7 +19,8 @@ GATE_NAMES = {0: "X", 1: "CNOT", 2: "SWAP", 3: "TOFFOLI", 4: "SNOT", 5: "Z", 6: 
 GATE_ARITY = {0: 1, 1: 2, 2: 2, 3: 3, 4: 1, 5: 1, 6: 2}
 NCTRL = {0: 0, 1: 1, 2: 0, 3: 2, 4: 0, 5: 0, 6: 1}
 
-ERR = {IndexError: "index", TypeError: "type", ValueError: "value", AttributeError: "attr"}
+ERR = {IndexError: "index", TypeError: "type", ValueError: "value", AttributeError: "attr",
+       NotImplementedError: "notimpl"}
 
 
 def err_name(e):
@@ -87,6 +88,43 @@ def ast_getter_pure(repo):
     return True
 
 
+def ast_assigns_attr(repo, rel, cls, fn, attr):
+    """does method `cls.fn` assign `self.<attr>`"""
+    from vlib.core import TranslatorError
+    f = _ast_find_func(ast.parse(open(os.path.join(repo, rel)).read()), cls, fn)
+    if f is None:
+        raise TranslatorError(f"{cls}.{fn} not found")
+    for node in ast.walk(f):
+        if isinstance(node, (ast.Assign, ast.AugAssign)):
+            tg = node.targets if isinstance(node, ast.Assign) else [node.target]
+            if any(isinstance(t, ast.Attribute) and t.attr == attr and isinstance(t.value, ast.Name)
+                   and t.value.id == "self" for t in tg):
+                return True
+    return False
+
+
+def ast_calls_deepcopy(repo, rel, cls, fn):
+    from vlib.core import TranslatorError
+    f = _ast_find_func(ast.parse(open(os.path.join(repo, rel)).read()), cls, fn)
+    if f is None:
+        raise TranslatorError(f"{cls}.{fn} not found")
+    return any(isinstance(n, ast.Call) and isinstance(n.func, ast.Name) and n.func.id == "deepcopy" for n in ast.walk(f))
+
+
+def ast_returns_after_deepcopy(repo, rel, fn):
+    """module-level function whose `gates` attribute of the returned circuit is assigned a deepcopy"""
+    from vlib.core import TranslatorError
+    tree = ast.parse(open(os.path.join(repo, rel)).read())
+    for f in tree.body:
+        if isinstance(f, ast.FunctionDef) and f.name == fn:
+            for node in ast.walk(f):
+                if isinstance(node, ast.Assign) and any(isinstance(t, ast.Attribute) and t.attr == "gates" for t in node.targets) \
+                        and isinstance(node.value, ast.Call) and getattr(node.value.func, "id", None) == "deepcopy":
+                    return True
+            return False
+    raise TranslatorError(f"{fn} not found in {rel}")
+
+
 def probe_cfg(repo):
     """Flags of Sim.Cfg for the checked-out code: AST reading cross-checked by behaviour."""
     from vlib.core import TranslatorError
@@ -132,11 +170,50 @@ def probe_cfg(repo):
     pure_a = ast_getter_pure(repo)
     if pure_a != pure_b:
         raise TranslatorError(f"state property: source reading ({pure_a}) and behaviour ({pure_b}) differ")
-    return {"copyCbits": copy_b, "checkCcv": ccv, "resetPhase": reset_b, "pureGetter": pure_b}
+    # fix C02-3: density-matrix mode refuses feed-forward
+    q3 = QubitCircuit(2, num_cbits=1)
+    q3.add_gate("SNOT", targets=0)
+    q3.add_measurement("M", targets=0, classical_store=0)
+    q3.add_gate("X", targets=1, classical_controls=[0])
+    try:
+        CircuitSimulator(q3, mode="density_matrix_simulator").run(qutip.ket2dm(qutip.basis([2, 2], [0, 0])))
+        refuse_b = False
+    except NotImplementedError:
+        refuse_b = True
+    refuse_a = ast_assigns_attr(repo, "src/qutip_qip/circuit/circuitsimulator.py", "CircuitSimulator", "initialize",
+                                "_mixed_cbits")
+    if refuse_a != refuse_b:
+        raise TranslatorError(f"dm feed-forward refusal: source reading ({refuse_a}) and behaviour ({refuse_b}) differ")
+    # fixes C16-3 / C16-4: transformations return gate objects of their own
+    from qutip_qip.transpiler.chain import to_chain_structure
+    q4 = QubitCircuit(3)
+    q4.add_gate("RX", targets=1, arg_value=0.5)
+    q4.add_gate("CNOT", controls=0, targets=2)
+    shares = lambda r: any(any(g is h for h in q4.gates) or any(
+        (g.targets is not None and g.targets is h.targets) or (g.controls is not None and g.controls is h.controls)
+        for h in q4.gates) for g in r.gates)
+    rev_b = not shares(q4.reverse_circuit())
+    chain_b = not shares(to_chain_structure(q4, "circular"))
+    rev_a = ast_calls_deepcopy(repo, "src/qutip_qip/circuit/circuit.py", "QubitCircuit", "reverse_circuit")
+    chain_a = ast_returns_after_deepcopy(repo, "src/qutip_qip/transpiler/chain.py", "to_chain_structure")
+    if rev_a != rev_b or chain_a != chain_b:
+        raise TranslatorError(f"gate copies in reverse_circuit/to_chain_structure: source reading ({rev_a},{chain_a}) "
+                              f"and behaviour ({rev_b},{chain_b}) differ")
+    # fix C16-5: noise objects keep their own attributes
+    from qutip_qip.noise import RelaxationNoise
+    nz = RelaxationNoise(t1=1.0, t2=0.5)
+    nz.get_noisy_pulses(dims=[2, 2], pulses=[])
+    noise_b = nz.t1 == 1.0
+    noise_a = not ast_assigns_attr(repo, "src/qutip_qip/noise.py", "RelaxationNoise", "get_noisy_pulses", "t1")
+    if noise_a != noise_b:
+        raise TranslatorError(f"noise attribute rewriting: source reading ({noise_a}) and behaviour ({noise_b}) differ")
+    return {"copyCbits": copy_b, "checkCcv": ccv, "resetPhase": reset_b, "pureGetter": pure_b,
+            "dmRefuse": refuse_b, "copyRev": rev_b, "copyChain": chain_b, "noiseLocal": noise_b}
 
 
 def cfg_str(cfg):
-    return "".join("1" if cfg[k] else "0" for k in ("copyCbits", "checkCcv", "resetPhase", "pureGetter"))
+    return "".join("1" if cfg[k] else "0" for k in ("copyCbits", "checkCcv", "resetPhase", "pureGetter", "dmRefuse", "copyRev", "copyChain",
+                                                   "noiseLocal"))
 
 
 # ------------------------------------------------------------------------------------------
@@ -262,9 +339,10 @@ def parse_answer(line):
     heap = [_p_list(x) for x in wf["heap"].split(";")] if wf["heap"] != "" else []
     sim = None
     if wf["sim"] != "N":
-        cb, st, pr, oi, mr, mi, form = wf["sim"].split("|")
+        cb, st, pr, oi, mr, mi, form, mixed = wf["sim"].split("|")
         sim = {"cbits": None if cb == "N" else int(cb), "state": _p_state(st), "prob": _p_prob(pr),
-               "op_index": int(oi), "mres": None if mr == "N" else _p_list(mr), "mind": int(mi), "form": form}
+               "op_index": int(oi), "mres": None if mr == "N" else _p_list(mr), "mind": int(mi), "form": form,
+               "mixed": sorted(_p_list(mixed))}
     ca, cp = wf["comp"].rsplit("/", 1)
     pa, pp = wf["proc"].rsplit("/", 1)
     world = {"heap": heap, "sim": sim, "comp": {"args": ca, "phase": int(cp)},
@@ -503,6 +581,7 @@ def run_impl(case, rng, qc=None, observer=None, handlers=None):
             form = "g"
         simw = {"cbits": (am.name(sim.cbits), None if sim.cbits is None else [int(v) for v in sim.cbits]),
                 "state": qobj_np(raw), "form": form, "prob": float(sim._probability), "op_index": sim._op_index,
+                "mixed": sorted(int(x) for x in getattr(sim, "_mixed_cbits", ())),
                 "mres": None if mr is None else [int(x) for x in mr], "mind": sim._measure_ind}
     world = {"heap": [[int(v) for v in l] for l in lists], "sim": simw,
              "result_lists": {k: [int(v) for v in l] for k, l in seen_lists.items()}}
@@ -589,7 +668,8 @@ def compare(case, model, impl):
             return "sim._state"
         if not _prob_eq(ms["prob"], is_["prob"], exact):
             return f"sim._probability model={ms['prob']} impl={is_['prob']}"
-        for k in ("op_index", "mres", "mind", "form"):
+        ms = dict(ms, mixed=sorted(set(ms["mixed"])))
+        for k in ("op_index", "mres", "mind", "form", "mixed"):
             if ms[k] != is_[k]:
                 return f"sim.{k} model={ms[k]} impl={is_[k]}"
     return None
